@@ -438,6 +438,36 @@ func registerNatives(p *Program) {
 	N["errors.Is"] = func(r *Run, g *Goroutine, a []Value) Value {
 		return r.errorsIs(g, a[0].(Iface), a[1].(Iface), 0)
 	}
+	N["errors.As"] = func(r *Run, g *Goroutine, a []Value) Value {
+		err := a[0].(Iface)
+		tgt := a[1].(Iface)
+		tp, ok := tgt.V.(*Value)
+		if !ok || tp == nil || tgt.T == nil {
+			panic(targetPanic{v: r.runtimeError("errors: target must be a non-nil pointer"), site: r.siteOf(g)})
+		}
+		want := tgt.T.Underlying().(*types.Pointer).Elem()
+		for depth := 0; err.T != nil && depth < 50; depth++ {
+			if it, isIface := want.Underlying().(*types.Interface); isIface {
+				if r.P.implements(err.T, it) {
+					*tp = err
+					return true
+				}
+			} else if types.Identical(err.T, want) {
+				*tp = err.V
+				return true
+			}
+			m := r.methodByName(err.T, "Unwrap")
+			if m == nil {
+				break
+			}
+			inner, ok := r.callFunction(g, g.top, m, []Value{err.V}).(Iface)
+			if !ok {
+				break
+			}
+			err = inner
+		}
+		return false
+	}
 	N["internal/reflectlite.TypeOf"] = func(r *Run, g *Goroutine, a []Value) Value {
 		r.abort("reflectlite.TypeOf reached (errors.As?)")
 		return nil
